@@ -1,6 +1,7 @@
 import EdbVerif.Model.Lex
 import EdbVerif.Model.Quote
 import EdbVerif.Model.PgLex
+import EdbVerif.Model.PgLexDollar
 import Driver.Common
 open EdbVerif EdbVerif.Driver
 
@@ -23,7 +24,7 @@ the hex text, so that the empty string is visible.
   B <hex bytes>           visit_BytesConstant, quote_bytea_literal
   N <hex name> <hex hash> <prefix_length>   edgedb_name_to_pg_name; `hash` = base64(md5(name)) without `=`
   L <hex text>            Lex.lexOne ∘ Lex.skipWs (as `Tokenizer::new` + `next`): `ok <kind> <valkind> =<val> <consumed>` | `err <class>`
-  PS|PE|PI|PB <hex text>  PgLex.lexStd / lexEsc / lexIdent / lexByteaLit
+  PS|PE|PI|PB|PD <hex text>  PgLex.lexStd / lexEsc / lexIdent / lexByteaLit / lexDollarStr
 Malformed lines answer `bad-op`.
 -/
 
@@ -155,6 +156,13 @@ def step (st : DS) (line : String) : DS × String :=
       match PgLex.lexIdent s with
       | .ok (.ident n, rest) => (st, s!"ok ident {fld n} {s.length - rest.length}")
       | .ok (.keyword n k, rest) => (st, s!"ok kw{k} {fld n} {s.length - rest.length}")
+      | .error e => (st, "err " ++ pgErrName e)
+    | none => (st, "bad-op")
+  | ["PD", h] =>
+    match unhexStr h with
+    | some s =>
+      match PgLex.lexDollarStr s with
+      | .ok (v, rest) => (st, s!"ok {fld v} {s.length - rest.length}")
       | .error e => (st, "err " ++ pgErrName e)
     | none => (st, "bad-op")
   | ["PB", h] =>
